@@ -206,7 +206,10 @@ def extra(rng, tier):
             if want != rb.fractions():
                 fails.append({"line": lines[ib], "impl": outs[ib][:200], "required": f"{what}: values must be exactly {[str(w) for w in want][:6]}... (from `{lines[ia][:300]}`)"})
         else:
-            want = [vlib.f64_bits(f(v)) for v in ra.floats()]
-            if want != rb.bits():
+            # bit for bit, except that the sign of an exact zero is not compared: IEEE gives (-a) - (-a) = +0 = a - a, so a negative
+            # factor maps a result +0 to +0 where the transformed value would be -0 (found by the thorough tier; the crate is right)
+            nz = lambda b: 0 if b == 0x8000000000000000 else b
+            want = [nz(vlib.f64_bits(f(v))) for v in ra.floats()]
+            if want != [nz(b) for b in rb.bits()]:
                 fails.append({"line": lines[ib], "impl": outs[ib][:200], "required": f"{what}: values must be bit-identical transforms of those of `{lines[ia][:300]}`: {outs[ia][:200]}"})
     return {"evaluations": len(lines), "failures": fails, "hist": {"pairs": len(checks), "changed_pairs": changed}}
